@@ -1,6 +1,7 @@
 package main
 
 import (
+	"github.com/boz/kcache/client"
 	"verifharness/qlog"
 	"runtime"
 	"context"
@@ -429,7 +430,7 @@ func runC12(c *Ctx) {
 	}
 	// mid-relist and mid-reconnect shutdowns, slow lists, hanging watch connects
 	midModes := []string{"slow-list", "watch-hangs", "watch-errors", "slow-list+watch-hangs", "stream-dropped", "stream-dropped-twice",
-		"list-outlasts-period", "cancel-while-applying-a-list", "close-while-applying-a-list", "client-slow-to-return"}
+		"list-outlasts-period", "cancel-while-applying-a-list", "close-while-applying-a-list", "client-slow-to-return", "close-held-watcher-in-retry"}
 	for i := 0; i < 6*len(midModes); i++ {
 		var problems []string
 		var stuck string
@@ -555,6 +556,18 @@ func runC12(c *Ctx) {
 				}(rdr)
 			}
 			time.Sleep(at)
+			var releaseWatcher func()
+			if mode == "close-held-watcher-in-retry" {
+				// the stream is dropped (retry timer armed, 1 s); Close() is called with
+				// the watcher goroutine descheduled at its next log call (its "shutdown
+				// request" line) for longer than the retry delay: the timer's callback
+				// fires into a watcher that no longer listens
+				sched.Settle()
+				srv.CloseStreams()
+				time.Sleep(300 * time.Millisecond)
+				sched.Settle()
+				releaseWatcher = ct.pert.Hold("watcher")
+			}
 			if mode == "stream-dropped" || mode == "stream-dropped-twice" {
 				// Close() after the watcher has reconnected (and while it waits to)
 				sched.Settle()
@@ -580,6 +593,12 @@ func runC12(c *Ctx) {
 			}
 			ct.pert.SetLevel(0)
 			sched.Settle()
+			if releaseWatcher != nil {
+				time.Sleep(1500 * time.Millisecond)
+				sched.Settle()
+				releaseWatcher()
+				sched.Settle()
+			}
 			time.Sleep(time.Millisecond)
 			sched.Settle()
 			if ff != nil {
@@ -656,6 +675,59 @@ func runC12(c *Ctx) {
 		}
 		c.DistinctCase(what)
 		c.Case(enc.L(enc.I(13), enc.I(0)))
+	}
+	// a controller created with a context that is already cancelled: it never
+	// becomes ready, is done at once, leaves nothing behind, and every call on
+	// it returns
+	for i := 0; i < 3; i++ {
+		var problems []string
+		what := "a controller created with an already cancelled context"
+		c.Now(what)
+		base := sched.LibraryGoroutines()
+		dl := sched.Bubble(c.T, func() {
+			srv := fakeapi.New()
+			srv.Set(1, 1, labSets[1], 1)
+			if i == 1 {
+				srv.ListLatency = func(int) time.Duration { return time.Second }
+			}
+			ctx, cancel := context.WithCancel(context.Background())
+			cancel()
+			pert := sched.NewPerturb(c.Seed+int64(i), i)
+			b := kcache.NewBuilder().Context(ctx).Log(pert.Log()).Client(client.NewClient(srv.List, srv.Watch))
+			ctl, err := b.Create()
+			if err != nil {
+				return // refusing to build is fine too
+			}
+			time.Sleep(3 * time.Second)
+			sched.Settle()
+			if !isClosed(ctl.Done()) {
+				problems = append(problems, "not done 3 s after it was created with a cancelled context")
+				ctl.Close()
+				sched.Settle()
+			}
+			if _, err := ctl.Subscribe(); err == nil && !isClosed(ctl.Done()) {
+				problems = append(problems, "Subscribe succeeded on it")
+			}
+			done := make(chan struct{})
+			go func() { ctl.Close(); ctl.Cache().List(); close(done) }()
+			sched.Settle()
+			if !isClosed(done) {
+				problems = append(problems, "Close() or Cache().List() blocks on it")
+			}
+		})
+		c.Rep.Evaluations++
+		replay := map[string]interface{}{"scenario": what, "variant": i}
+		if dl != "" {
+			replay["deadlock"] = dl
+			c.Violation("", "goroutines left blocked (bubble deadlock): "+what, replay)
+		} else if left := sched.LibraryGoroutines() - base; left > 0 {
+			replay["goroutines"] = sched.LibraryStacks()
+			c.Violation("", fmt.Sprintf("%d library goroutines are left by %s", left, what), replay)
+		}
+		for _, p := range problems {
+			c.Violation("", p+" ["+what+"]", replay)
+		}
+		c.DistinctCase(fmt.Sprint("precancelled", i))
 	}
 	// subscriptions opened and closed at full speed (real time, no barriers)
 	// while the source publishes without pause: no panic, the publisher still
